@@ -138,7 +138,7 @@ func (m *c04Machine) rebuild(when string) {
 	if m.done {
 		return
 	}
-	if err := m.s.Barrier(); err != nil {
+	if err := g8aBarrier(m.s, 20*time.Second); err != nil {
 		m.rec.Label("infra:barrier")
 		m.done = true
 		return
